@@ -62,6 +62,55 @@ example : let s := run { mode := .et, async := true, rbs := 4, cap := 3, udp := 
     s.ps = .idle ∧ s.task = .none ∧ s.closed = false ∧ s.k.qlen = 1 ∧ s.k.edge = true ∧ s.dlv = [(0, [1, 2, 3])] := by
   decide
 
+/-- `willReport` is not a bare predicate on ghosts: whenever it holds on a reachable state with an idle poller and an
+    open conn, the model's report step (readable flag, no writable flag) IS enabled — the model never blocks the report
+    the kernel owes. (`reportOk` does not read `edge`: the model also allows spurious reports, i.e. more behaviours than
+    the kernel has, which only strengthens the safety theorems.) -/
+theorem c02_report_enabled (g : Cfg) (as : List Act) :
+    let s := run g init as
+    willReport g s → s.ps = .idle → s.closed = false → (report g s true false).isSome = true := by
+  intro s hw hp hc
+  have h := core_run g as init (core_init g)
+  have hreg : s.k.reg = true := h.kind.reg
+  have harm : g.mode ≠ .os ∨ s.k.armed = true := by
+    cases hm : g.mode with
+    | lt => left; simp
+    | et => left; simp
+    | os => right; simp only [willReport, hm] at hw; exact hw.1
+  have hok : reportOk g s true false = true := by
+    simp only [reportOk, hp, hc, hreg, Bool.not_false, Bool.and_true, Bool.true_and, Bool.or_true, Bool.true_or,
+      beq_self_eq_true, Bool.or_eq_true, bne_iff_ne, ne_eq]
+    rcases harm with h1 | h1
+    · exact Or.inl h1
+    · exact Or.inr h1
+  simp only [report, hok, ↓reduceIte, Option.isSome_some]
+
+/-- C02 (ii) progress, composed: while unread input sits in the kernel queue of an open conn, the system is never
+    stuck — the poller has a step, or the read task has a step, or the kernel owes a report AND that report is enabled.
+    Together with `c02_no_spin` (internal steps are finite between reports) and `c02_delivery_stream` (what is read is
+    handed over, in order): the only way input stays unread is that the kernel does not deliver the report it owes. -/
+theorem c02_progress (g : Cfg) (as : List Act) :
+    let s := run g init as
+    s.k.qlen > 0 → s.closed = false →
+    (pstep g s).isSome = true ∨ (tstep g s).isSome = true ∨ (report g s true false).isSome = true := by
+  intro s hq hc
+  cases hp : s.ps with
+  | rd i fl => left; simp only [pstep, hp, Option.isSome_some]
+  | fin fl => left; simp only [pstep, hp, Option.isSome_some]
+  | idle =>
+    rcases c02_no_lost_edge g as hq hc with h | h
+    · exact Or.inr (Or.inr (c02_report_enabled g as h hp hc))
+    · right; left
+      rcases h with ⟨i, fl, h⟩ | ⟨fl, h, _⟩ | h | ⟨v, h⟩ | ⟨a, hx, h, _⟩
+      · rw [hp] at h; cases h
+      · rw [hp] at h; cases h
+      · have h' : s.task = .queued := h
+        simp only [tstep, h', Option.isSome_some]
+      · have h' : s.task = .dec v := h
+        simp only [tstep, h', Option.isSome_some]
+      · have h' : s.task = .rd a hx := h
+        simp only [tstep, h', Option.isSome_some]
+
 /-- C02 (i) streams: at every point of every run, what the callbacks received, followed by what a parked read
     task has taken from the kernel but not yet handed over, followed by the kernel queue, is exactly what the peer
     sent — nothing lost, duplicated, reordered or invented. -/
